@@ -201,7 +201,9 @@ Section Machine.
     end.
 
   (* prelude (run alone, as thread number [length progs]); then the schedule; then thread 0
-     to completion, thread 1 to completion, ... *)
+     to completion, thread 1 to completion, ...
+     trace = return values of the prelude calls ++ per entry [...] ++ per thread [steps;
+     return values] ++ final snapshot *)
   Definition run_machine (snap : mem -> list Z) (m0 : mem) (pre : list CALL)
              (progs : list (list CALL)) (sched : list (nat * bool)) : list Z :=
     let n := length progs in
@@ -209,7 +211,8 @@ Section Machine.
     let s0 := drain_thread fuel (init_state m0 (progs ++ [pre])) n in
     let (s1, tr) := run_trace snap s0 sched in
     let s2 := drain fuel n s1 in
-    tr ++ thread_traces (st_log s2) (firstn n (st_thr s2)) 0 ++ snap (st_mem s2).
+    rets_of n (st_log s0) ++ tr ++ thread_traces (st_log s2) (firstn n (st_thr s2)) 0
+            ++ snap (st_mem s2).
 End Machine.
 
 Arguments prog : clear implicits.
